@@ -4,12 +4,15 @@ Bounded-exhaustive sweep (mc.boundx) of populations of trace shards, finished
 records, server-trace shards and history directories on the fake ZooKeeper;
 the real archiver (treadmill.trace.app.zk / trace.server.zk / trace._zk) is
 run to completion, then killed before each of its ZooKeeper writes in turn
-(fakezk.Crash from the tree hook) and re-run on the cut state.  Every produced
+(fakezk.Crash from the tree hook) and re-run on the cut state, then run with
+each write in turn failing once with kazoo ConnectionLoss (error flavour) and
+re-run.  Every produced
 snapshot is inflated and opened with sqlite3 by the harness, and the real
 `download_batch` is asked for every record that left the live tree.
 
 Oracle (only what the statement says):
-  * conservation - at every cut, after every re-run, at the end and after a
+  * conservation - at every cut, after every failed write, after every
+    re-run, at the end and after a
     second run one hour later, every event / finished record that existed
     before is a live node or is returned by download_batch from some snapshot
     (finished records: a row with the same data, and named by list_traces);
@@ -34,7 +37,8 @@ HASH_INSENSITIVE = True
 
 RULE = ('one case = one population x batch size x pre-existing snapshots '
         '(x child order), run to completion + cut before every ZooKeeper '
-        'write + re-run + a later run; a case is non-trivial when the full '
+        'write + re-run + every write failing once with ConnectionLoss + '
+        're-run + a later run; a case is non-trivial when the full '
         'run moved at least one record out of the live tree '
         '(cases_with_archived_records); pruning cases are non-trivial when '
         'the history held more than max_count snapshots')
@@ -44,6 +48,12 @@ ASSUMPTIONS = [
     'selftest/fakezk_test.py); writes are atomic and ordered, one archiver '
     'session (the production archiver runs under a lock); kill = the process '
     'stops before its k-th create/set/delete reaches ZooKeeper',
+    'error = exactly one write of the run raises kazoo ConnectionLoss (quick: '
+    'request lost, not applied; thorough also: applied but reply lost), all '
+    'later requests succeed; a kazoo exception that the code lets propagate '
+    'ends that run (the sproc would exit), then the archiver runs again; '
+    'KazooRetry back-off sleeps are instantaneous; SessionExpired and '
+    'multi-failure runs are not enumerated',
     'virtual clock of mc/vclock read without the per-call tick: time.time() '
     'is constant within one archiver run (so "exactly at the expiry" is a '
     'well-defined boundary) and moves by whole seconds between runs; ZooKeeper '
@@ -75,10 +85,16 @@ def _cases(tier):
     return _CASES[tier]
 
 
+def _variants(tier):
+    return ('lost',) if tier == 'quick' else ('lost', 'applied')
+
+
 def _worker(chunk):
     tier, lo, hi = chunk
     cases = _cases(tier)[lo:hi]
+    w.ERROR_VARIANTS['list'] = _variants(tier)
     w.install_clock()
+    w.install_retry()
     w.scratch_begin()
     cnt = collections.Counter()
     viols = {}
@@ -98,6 +114,8 @@ def _worker(chunk):
                 if key not in viols:
                     viols[key] = dict(v, count=1, size=w.case_size(case),
                                       replay={'case': w.describe(case),
+                                              'variants': list(
+                                                  _variants(tier)),
                                               'clause': v['clause'],
                                               'site': v['site']})
                 else:
@@ -121,6 +139,8 @@ def _worker(chunk):
 def _confirm(v):
     """Re-run the case twice in fresh state; identical observations or die."""
     case = w.undescribe(v['replay']['case'])
+    w.ERROR_VARIANTS['list'] = tuple(v['replay'].get('variants',
+                                                     ('lost', 'applied')))
     obs = []
     for _ in range(2):
         w._BASES.clear()
@@ -157,10 +177,13 @@ def _run(ctx):
     if res.nontrivial == 0 or not c.get('cuts') or \
             not c.get('records_gone_from_live') or \
             not c.get('cases_with_records_kept_live') or \
-            not c.get('prunes_with_excess'):
+            not c.get('prunes_with_excess') or \
+            not c.get('error_points') or \
+            not c.get('error_runs_aborted'):
         raise w.HarnessError('vacuous run: %r' % dict(c))
     violations = []
     w.install_clock()
+    w.install_retry()
     w.scratch_begin()
     try:
         for v in sorted(res.violation_list(), key=lambda x: x['size']):
@@ -173,7 +196,8 @@ def _run(ctx):
     fam = collections.Counter(cs['family'] for cs in cases)
     cov = {
         'states': res.cases,
-        'transitions': c.get('writes', 0) + c.get('cuts', 0),
+        'transitions': c.get('writes', 0) + c.get('cuts', 0) +
+        c.get('error_points', 0),
         'executions': c.get('runs', 0),
         'traces_validated_against_impl': c.get('runs', 0),
         'evaluations': c.get('records_checked', 0) + c.get('prune_checks', 0),
@@ -182,7 +206,10 @@ def _run(ctx):
         'samples': res.samples[:6],
         'exhaustive': res.exhaustive,
         'caps_hit': res.caps_hit,
-        'crash_points': c.get('cuts', 0),
+        'crash_points': c.get('cuts', 0) + c.get('error_points', 0),
+        'kill_points': c.get('cuts', 0),
+        'error_points': c.get('error_points', 0),
+        'error_variants': list(_variants(tier)),
         'counters': dict(c),
         'chunks': [res.chunks_done, res.chunks_total],
         'menus': {
@@ -217,7 +244,9 @@ def replay(ctx, data):
 
 def _replay(data):
     case = w.undescribe(data['case'])
+    w.ERROR_VARIANTS['list'] = tuple(data.get('variants', ('lost', 'applied')))
     w.install_clock()
+    w.install_retry()
     w.scratch_begin()
     try:
         runs = []
